@@ -576,5 +576,13 @@ func TestReplay(t *testing.T) {
 			vs, _ := CheckSubstitution(c)
 			return vs
 		},
+		"TestSearchRewrite": func(raw json.RawMessage) hx.Vs {
+			var c SRCase
+			if err := json.Unmarshal(raw, &c); err != nil {
+				return hx.Vs{{Sig: "harness:decode", Msg: err.Error()}}
+			}
+			vs, _ := CheckSearchRewrite(c)
+			return vs
+		},
 	})
 }
